@@ -135,28 +135,29 @@ theorem frame_set' (σ : PyState) (l : String) (v : Val) (n : String) (h : n ≠
   simp [this]
 
 /-- an unconditional member (nothing parked): the emitted statements do what `decFieldStep` does -/
-theorem plain_sim {σ : PyState} {st st' : DecState} {hid pre : List Field} (hS : Sim σ st hid pre) (hq : st.queued = [])
+theorem plain_sim {σ : PyState} {st st' : DecState} {full hid pre : List Field} (hS : Sim σ st hid pre)
+    (hlk : ∀ n, (∀ x ∈ hid, x.name ≠ n) → lookupField full n = lookupField pre n)
     (hnn : ∀ ty b v, r.dec ty b = .ok v → v ≠ .none)
-    {f : Field} (hc : f.cond = none) (hfresh : ∀ x ∈ pre, localName x ≠ localName f) (hne : ∀ x ∈ hid ++ pre, x.name ≠ f.name)
+    {f : Field} (hq : st.queued.find? (·.1 == f.name) = none) (hc : f.cond = none) (hfresh : ∀ x ∈ pre, localName x ≠ localName f) (hne : ∀ x ∈ hid ++ pre, x.name ≠ f.name)
     (hvis : ∀ n ∈ refsOf f, ∀ x ∈ hid, x.name ≠ n)
-    {isLast : Bool} (hwf : wfFieldAt S d (hid ++ pre) f isLast = true) (hg : wfgdKind f = true)
+    {isLast : Bool} (hwf : wfFieldAt S d full f isLast = true) (hg : wfgdKind f = true)
     {sm : Option String} (hsm : (sm == some (printerName f.name)) = true ↔ ∃ w, f.kind = .sizeF w)
     {d' : StructDef} {idx : Nat} (hreb : rebase d' st idx = st)
     (hstep : decFieldStep S T r d' st idx f = .ok st') :
-    ∃ σ', (desFieldAst S d sm f none).exec S T r σ = .ok σ' ∧ Sim σ' st' hid (pre ++ [f]) ∧ st'.queued = [] ∧
+    ∃ σ', (desFieldAst S d sm f none).exec S T r σ = .ok σ' ∧ Sim σ' st' hid (pre ++ [f]) ∧ st'.queued = st.queued ∧
       σ'.bufs = σ.bufs ∧ (∀ n, n ≠ localName f → σ'.get n = σ.get n) := by
   unfold decFieldStep at hstep
   simp only [hreb, hc] at hstep
   unfold decPlainField at hstep
   obtain ⟨⟨v, adv⟩, hpay, hstep⟩ := bind_eq_ok.mp hstep
   simp only at hstep
-  rw [flushQueued_none _ _ _ _ _ (by rw [afterPlain_queued, hq]; rfl)] at hstep
+  rw [flushQueued_none _ _ _ _ _ (by rw [afterPlain_queued]; exact hq)] at hstep
   simp only [Except.ok.injEq] at hstep
   subst hstep
   unfold DesField.exec desFieldAst
   simp only [localCondAst, hc, Option.getD_none]
   -- the load and the slice bound
-  obtain ⟨hload, hadv⟩ := payload_sim (T := T) hS hnn hfresh hvis hwf hg (src := srcOf f "buffer")
+  obtain ⟨hload, hadv⟩ := payload_sim (T := T) hS hlk hnn hfresh hvis hwf hg (src := srcOf f "buffer")
     (by intro ty l hk; simp [srcOf, hk]) (by intro ty hk; simp [srcOf, hk]) hpay
   have hbound := fun hb => payload_bound hpay hg hb
   by_cases hsz : ∃ w, f.kind = .sizeF w
@@ -194,7 +195,7 @@ theorem plain_sim {σ : PyState} {st st' : DecState} {hid pre : List Field} (hS 
         rw [PyState.get_set]; simp
       · exact hne
       · intro hb; simp [hk, FK.isBoundSize] at hb
-    · rw [afterPlain_queued]; exact hq
+    · rw [afterPlain_queued]
   · have hsm' : (sm == some (printerName f.name)) = false := by
       cases h : (sm == some (printerName f.name)) with
       | false => rfl
@@ -259,15 +260,16 @@ theorem plain_sim {σ : PyState} {st st' : DecState} {hid pre : List Field} (hS 
         rw [PyState.get_set]; simp
       · exact hne
       · exact hbound
-    · rw [afterPlain_queued]; exact hq
+    · rw [afterPlain_queued]
 
 /-- a conditional member whose discriminant has been read (nothing parked) -/
-theorem cond_sim {σ : PyState} {st st' : DecState} {hid pre : List Field} (hS : Sim σ st hid pre)
+theorem cond_sim {σ : PyState} {st st' : DecState} {full hid pre : List Field} (hS : Sim σ st hid pre)
+    (hlk : ∀ n, (∀ x ∈ hid, x.name ≠ n) → lookupField full n = lookupField pre n)
     (hnn : ∀ ty b v, r.dec ty b = .ok v → v ≠ .none)
     {f : Field} {c : Cond} (hc : f.cond = some c) (hfresh : ∀ x ∈ pre, localName x ≠ localName f)
     (hne : ∀ x ∈ hid ++ pre, x.name ≠ f.name) (hvis : ∀ n ∈ refsOf f, ∀ x ∈ hid, x.name ≠ n)
-    {isLast : Bool} (hwf : wfFieldAt S d (hid ++ pre) f isLast = true) (hg : wfgdKind f = true) (hgc : wfgdCond S d f = true)
-    (hearly : refOk (hid ++ pre) c.field (discKindOk c) = true)
+    {isLast : Bool} (hwf : wfFieldAt S d full f isLast = true) (hg : wfgdKind f = true) (hgc : wfgdCond S d f = true)
+    (hearly : refOk full c.field (discKindOk c) = true)
     {sm : Option String} (hsm : (sm == some (printerName f.name)) = true ↔ ∃ w, f.kind = .sizeF w)
     {d' : StructDef} {idx : Nat} (hreb : rebase d' st idx = st)
     (hstep : decFieldStep S T r d' st idx f = .ok st') :
@@ -293,7 +295,7 @@ theorem cond_sim {σ : PyState} {st st' : DecState} {hid pre : List Field} (hS :
   unfold decCondField at hstep
   -- the discriminant
   unfold refOk at hearly
-  rw [lookupField_hid (hvis c.field (by simp [refsOf, hc]))] at hearly
+  rw [hlk _ (hvis c.field (by simp [refsOf, hc]))] at hearly
   cases hl : lookupField pre c.field with
   | none => simp [hl] at hearly
   | some gk =>
@@ -354,7 +356,7 @@ theorem cond_sim {σ : PyState} {st st' : DecState} {hid pre : List Field} (hS :
         obtain ⟨⟨v, adv⟩, hpay, hstep⟩ := bind_eq_ok.mp hstep
         simp only [pure, Except.pure, Except.ok.injEq] at hstep
         subst hstep
-        obtain ⟨hload, hadv⟩ := payload_sim (T := T) hS0 hnn hfresh hvis hwf hg (src := srcOf f "buffer")
+        obtain ⟨hload, hadv⟩ := payload_sim (T := T) hS0 hlk hnn hfresh hvis hwf hg (src := srcOf f "buffer")
           (by intro ty l hk; simp [srcOf, hk]) (by intro ty hk; simp [srcOf, hk]) hpay
         have hbound := fun hb => payload_bound hpay hg hb
         refine ⟨{ (σ.set (printerName f.name) .none).set (localName f) v with buffer := st.buf.drop adv }, ?_, ?_, rfl, rfl,
